@@ -1425,6 +1425,39 @@ fn rnd_mag(rng: &mut Rng, maxw: usize) -> Vec<u8> {
         }
     }
 }
+/// Probes relative to the storage a history ends with (`fin_t` = the hook triples of a dry run; allocation sizes depend
+/// on the operations only, so the real run reaches the same state): set_bit at the capacity boundary (UBig), and an
+/// in-place right shift by whole words followed by a left shift by the value's own new word count (the shrunk value keeps
+/// its large buffer, the shift then moves every word beyond the old length).
+pub fn add_probes(case: &mut Value, rng: &mut Rng, kind: &str, fin_t: &Value) {
+    let mut extra: Vec<Value> = Vec::new();
+    if let Some(ts) = fin_t.as_array() {
+        for (r, t) in ts.iter().enumerate() {
+            if !t[0]["heap"].as_bool().unwrap_or(false) || extra.len() >= 3 || rng.coin() {
+                continue;
+            }
+            let (cap, len) = (t[0]["cap"].as_u64().unwrap_or(0), t[0]["len"].as_u64().unwrap_or(0));
+            if kind == "U" && rng.coin() {
+                let k = rng.below(64);
+                let n = match rng.below(4) {
+                    0 => 64 * cap - 1,
+                    1 => 64 * (cap + 1) + k,
+                    _ => 64 * cap + k,
+                };
+                extra.push(json!({"op": "setbit", "d": r + 1, "a": r + 1, "n": n}));
+            } else if len >= 4 {
+                let j = 1 + rng.below((len - 3).min(3));
+                let rest = len - j;
+                extra.push(json!({"op": "shr", "d": r + 1, "a": r + 1, "n": 64 * j, "f": "a"}));
+                extra.push(json!({"op": "shl", "d": r + 1, "a": r + 1, "n": 64 * rest + rng.below(64), "f": *rng.pick(&["a", "v"])}));
+            }
+        }
+    }
+    if let Some(steps) = case["steps"].as_array_mut() {
+        steps.extend(extra);
+    }
+}
+
 pub fn gen_int_history(rng: &mut Rng, kind: &str, nr: usize, len: usize, maxw: usize) -> Value {
     let signed = kind == "I";
     let mut steps = Vec::new();
